@@ -251,7 +251,7 @@ def system_checks(ctx):
     except Exception as e:
         import traceback
         out.append({'name': 'kernel:all', 'n': 0, 'error': traceback.format_exc()[-1500:]})
-    ps, cases, obs = _make_cases(ctx, ctx.n(48, 480))
+    ps, cases, obs = _make_cases(ctx, ctx.n(36, 480))
     n = len(ps)
     # ---- 1. the hand model (evaluated in Coq, PrimFloat) against the real importer
     chunk = 4
